@@ -9,6 +9,7 @@ import (
 	"path/filepath"
 	"sort"
 	"strings"
+	gotime "time"
 
 	"github.com/jotaen/klog/klog/verifrt/vrt"
 
@@ -273,6 +274,38 @@ func c19Explore(c *fw.Ctx, idx int, tier fw.Tier) {
 			viol("fresh-config-folder", fmt.Sprintf("`bookmarks set` as the first command of a fresh account (no config folder yet): exit %d panic %v %s; bookmarks.json = %q (%s)", r.Code, r.PanicVal, r.Err, db, why))
 			return
 		}
+		e.hist = e.hist[:0]
+		// a long-running command (`klog today --follow @a`) resolves the bookmark anew at every refresh: the database
+		// is changed under it (a -> other file, then a removed) by "another invocation"
+		dbPath := filepath.Join(e.home, "bookmarks.json")
+		var dbs []string
+		for _, args := range [][]string{{"bookmarks", "set", e.paths[0], "a"}, {"bookmarks", "set", e.paths[1], "a"}, {"bookmarks", "unset", "a"}} {
+			if r := e.run(args...); r.Code != 0 {
+				viol("build", "cannot prepare the follow scenario: "+r.Err)
+				return
+			}
+			b, _ := os.ReadFile(dbPath)
+			dbs = append(dbs, string(b))
+		}
+		want, wantCode := "\033[2J", 0
+		for k := range dbs {
+			os.WriteFile(dbPath, []byte(dbs[k]), 0644)
+			r := clidrv.Run(e.home, clidrv.Opts{Now: fixedNow}, "today", "--no-style", "--no-warn", "@a")
+			want += "\033[H\033[J" + r.Stdout + "\nPress ^C to exit\n"
+			if r.Code != 0 {
+				wantCode = r.Code
+				break
+			}
+		}
+		os.WriteFile(dbPath, []byte(dbs[0]), 0644)
+		ticks := []gotime.Time{fixedNow, fixedNow.Add(gotime.Minute), fixedNow.Add(2 * gotime.Minute)}
+		e.hist = append(e.hist, "today --follow @a   (while the database changes: a -> second file, then a unset)")
+		rf := clidrv.Run(e.home, clidrv.Opts{Now: fixedNow, TickTimes: ticks, OnTick: func(k int) { os.WriteFile(dbPath, []byte(dbs[k]), 0644) }}, "today", "--follow", "--no-style", "--no-warn", "@a")
+		if rf.Panicked || rf.Stdout != want || rf.Code != wantCode || wantCode == 0 {
+			viol("follow-resolution", fmt.Sprintf("`klog today --follow @a` while the bookmark database changes between refreshes printed (exit %d, panic %v)\n%q\nbut fresh runs against the database of each moment print (exit %d)\n%q", rf.Code, rf.PanicVal, rf.Stdout, wantCode, want))
+			return
+		}
+		os.Remove(dbPath)
 		e.hist = e.hist[:0]
 	}
 	if why := e.build(keys, state); why != "" {
